@@ -312,8 +312,12 @@ def dec_main(prop):
         "C02": "covering corpus + seeded random schemas; per message %d well-formed images produced by the independent "
                "python encoder from random value trees (boundary values, NaN payloads, group sizes 0..3, data 0..9 bytes); "
                "every value is read back four ways (named accessors, get_by_tag, cursor accessors, cursor+get_by_tag) from "
-               "an exact-size heap copy under ASan and compared bit-exactly, constants included. distinct_nontrivial = "
-               "distinct (schema, message, image) with at least one group entry, data byte or composite." % nimg,
+               "an exact-size heap copy under ASan and compared bit-exactly, constants included. Constant evaluation "
+               "(C++20/23, both compilers): per message further images (exact and with inflated block lengths) are embedded "
+               "as constexpr arrays and every encoded value is collected by the same random-access getters inside a "
+               "constant expression, printed and compared with the value tree; the same collector also runs at run time. "
+               "distinct_nontrivial = distinct (schema, message, image) with at least one group entry, data byte or "
+               "composite (run-time and constexpr images counted separately)." % nimg,
         "C03": "as C02 but every level of every image gets an independent extra wire block length from {0,0,1,3,17} "
                "(root block, and each group occurrence separately, so a nested group may be longer in one parent entry "
                "than in another); filler bytes are a seeded pattern. Each image is decoded by random access (values and "
@@ -424,10 +428,92 @@ def dec_main(prop):
     ses.run_all(make, check)
     if prop == "C05":
         big_products(rep)
+    if prop == "C02":
+        constexpr_leg(rep, schemas)
     rep.assumptions += ["images are produced by the independent python encoder inside the generator domain (DESIGN 2.2)"]
     if prop == "C03":
         rep.assumptions += ["only well-formed extensions: every wire block length >= the compiled one, buffers complete"]
     return rep.finish()
+
+
+def constexpr_leg(rep, schemas):
+    """C02: the same getters in constant evaluation (C++20 and later), see vf/gen_cx.py."""
+    from . import gen_cx as X
+    quick = rep.tier == "quick"
+    nimg = 2 if quick else 6
+    cfgs = [build.Cfg("g++", "20", "O0"), build.Cfg("clang++", "20", "O0")]
+    if not quick:
+        cfgs += [build.Cfg("g++", "23", "plain"), build.Cfg("clang++", "23", "O0")]
+    preps = [p for p in C.pmap(codec.prepare, schemas) if p.ok]
+    jobs = []
+    for p in preps:
+        m = p.model
+        cases = []
+        for mi, msg in enumerate(p.schema.messages):
+            rng = C.rng_for(rep.seed, "C02cx", p.schema.name, msg.name)
+            for k in range(nimg):
+                infl = k % 2 == 1
+                vals = R.gen_values(m, msg, rng, max_group=2, max_data=6, inflate=infl, force=(k == 0))
+                if infl:
+                    pre = bytes(rng.getrandbits(8) for _ in range(R.message_size(m, msg, vals)))
+                    (arena, end), _ = R.encode_message(m, msg, vals, prefill=pre)
+                    image = bytes(arena[:end])
+                else:
+                    image, _ = R.encode_message(m, msg, vals)
+                    image = bytes(image)
+                if len(image) > 1500:
+                    continue
+                cases.append((mi, msg, vals, image, X.expected_sequence(m, msg, vals)))
+        src = X.CxGen(p.schema).generate([(mi, image, len(exp)) for mi, _, _, image, exp in cases])
+        for cfg in cfgs:
+            jobs.append((p, cfg, cases, src))
+
+    def one(job):
+        p, cfg, cases, src = job
+        ok, exe, out = build.compile_driver(src, cfg, inc_dirs=(p.gen["dir"],), dep_key=p.dep, name="cx-" + p.schema.package)
+        if not ok:
+            return job, False, out
+        rc, o, e, to = C.run([exe], timeout=300)
+        return job, True, (rc, o.decode(errors="replace"), to)
+
+    for (p, cfg, cases, src), ok, res in C.pmap(one, jobs):
+        if not ok:
+            errs = [l.strip() for l in res.splitlines() if "error" in l][:3]
+            key = re.sub(r"[^A-Za-z_:]+", "_", re.sub(r".*error: ", "", errs[0]))[:60] if errs else "?"
+            rep.violation("not-a-constant-expression", key,
+                          "%s/%s: a getter of an accepted schema is not usable in constant evaluation (or the constexpr "
+                          "driver does not compile): %s" % (p.schema.name, cfg, errs),
+                          {"schema": p.schema.name, "schema_xml": p.xml, "config": str(cfg), "errors": errs, "source_head": src[-3000:]})
+            continue
+        rc, out, to = res
+        if rc != 0 or to:
+            rep.inconc("%s/%s: constexpr driver exited rc=%s" % (p.schema.name, cfg, rc))
+            continue
+        got = {}
+        for ln in out.splitlines():
+            parts = ln.split(" ")
+            if parts[0] in ("X", "R") and len(parts) >= 3:
+                got[(parts[0], int(parts[1]))] = (int(parts[2]), [int(x, 16) for x in parts[3:]])
+        for i, (mi, msg, vals, image, exp) in enumerate(cases):
+            for tag, what in (("X", "constant evaluation"), ("R", "run time (same collector)")):
+                rep.evaluation()
+                g = got.get((tag, i))
+                if g is None:
+                    rep.inconc("%s/%s: no %s line for image %d" % (p.schema.name, cfg, tag, i))
+                    continue
+                n, seq = g
+                rep.count("constexpr_values" if tag == "X" else "runtime_values_same_collector", len(seq))
+                if n != len(exp) or seq != exp:
+                    j = next((a for a in range(min(len(seq), len(exp))) if seq[a] != exp[a]), min(len(seq), len(exp)))
+                    rep.violation("value-mismatch", "constexpr-getter" if tag == "X" else "collector-at-run-time",
+                                  "%s/%s msg %s in %s: value #%d is %s, the encoder wrote %s (%d values observed, %d expected)" % (
+                                      p.schema.name, cfg, msg.name, what, j, "%x" % seq[j] if j < len(seq) else "<missing>",
+                                      "%x" % exp[j] if j < len(exp) else "<nothing>", n, len(exp)),
+                                  {"schema": p.schema.name, "schema_xml": p.xml, "config": str(cfg), "message": msg.name,
+                                   "image_hex": image.hex(), "expected": ["%x" % x for x in exp], "observed": ["%x" % x for x in seq]})
+                elif tag == "X" and len(exp) > 6:
+                    rep.nontrivial("cx", p.schema.name, msg.name, image.hex())
+    rep.cov["constexpr_configs"] = [str(c) for c in cfgs]
 
 
 def _all_extras(vals):
